@@ -70,6 +70,11 @@ var forms = []string{
 	"closure-fewer-results",    // return wrap1(func() error {...})
 	"interface-method",         // return iface.M()
 	"other-package",            // return dep.F()
+	"labeled-loop-returns",     // outer: for { for { if c { return lit0 }; continue outer }; return lit1 }
+	"select-and-for-returns",   // for { select { case <-ch: return lit0; default: return lit1 } }
+	"type-switch-returns",      // switch any(v).(type) { case int: return lit0 }; { return lit1 }
+	"goto-label-return",        // if c { goto done }; return lit0; done: return lit1
+	"defer-and-closure-noise",  // defer func() { _ = func() int { return 9 }() }(); return lit1
 }
 
 func zeroExprs(sh int, v int) []string {
@@ -149,6 +154,16 @@ func (p Prog) body(i int) (src string, want [][]string) {
 			return "return " + strings.Join(exprs, ", "), nil
 		}
 		return ret(0), wantOf(0)
+	case "labeled-loop-returns":
+		return "outer:\n\tfor {\n\t\tfor i := 0; i < 2; i++ {\n\t\t\tif cond {\n\t\t\t\t" + ret(0) + "\n\t\t\t}\n\t\t\tcontinue outer\n\t\t}\n\t\t" + ret(1) + "\n\t}", wantOf(0, 1)
+	case "select-and-for-returns":
+		return "for {\n\t\tselect {\n\t\tcase <-ch:\n\t\t\t" + ret(0) + "\n\t\tdefault:\n\t\t\t" + ret(1) + "\n\t\t}\n\t}", wantOf(0, 1)
+	case "type-switch-returns":
+		return "switch anyV.(type) {\n\tcase int:\n\t\t" + ret(0) + "\n\t}\n\t{\n\t\t" + ret(1) + "\n\t}", wantOf(0, 1)
+	case "goto-label-return":
+		return "if cond {\n\t\tgoto done\n\t}\n\t" + ret(0) + "\ndone:\n\t" + ret(1), wantOf(0, 1)
+	case "defer-and-closure-noise":
+		return "defer func() { _ = func() int { return 9 }() }()\n\t" + ret(1), wantOf(1)
 	case "interface-method":
 		if ts[len(ts)-1] == "error" {
 			exprs := zeroExprs(sh, 1)
@@ -170,7 +185,7 @@ func (p Prog) body(i int) (src string, want [][]string) {
 func (p Prog) source(name string) (string, [][][]string) {
 	var b strings.Builder
 	b.WriteString("package " + name + "\n\nimport (\n\t\"errors\"\n\n\t\"" + modPath + "/dep\"\n)\n\n")
-	b.WriteString("var cond bool\n\nvar errSentinel = errors.New(\"sentinel\")\n\ntype doer interface {\n\tDo() error\n\tName() string\n}\n\nvar iface doer\n\nvar _ = dep.Name\n\n")
+	b.WriteString("var cond bool\n\nvar errSentinel = errors.New(\"sentinel\")\n\ntype doer interface {\n\tDo() error\n\tName() string\n}\n\nvar iface doer\n\nvar _ = dep.Name\n\nvar ch chan int\n\nvar anyV any\n\n")
 	b.WriteString("func wrapErr(f func() (int, string, error)) error {\n\t_, _, err := f()\n\treturn err\n}\n\n")
 	b.WriteString("func wrapTwo(f func() error) error { return f() }\n\n")
 	wants := make([][][]string, len(p.Shapes))
